@@ -56,13 +56,29 @@ type env struct {
 	strayL  []string
 }
 
-func newEnv(kind string, blockwise bool, queue int) *env {
+// slowMonitor: an inactivity monitor whose Notify takes a while - it runs in the receive path after the handler, i.e.
+// after a response was handed to its caller, and widens the window in which the caller already owns (and may already
+// have released) the message while the receive path is not done with it yet.
+type slowMonitor struct{}
+
+func (slowMonitor) Notify() {
+	t0 := time.Now()
+	for time.Since(t0) < 150*time.Microsecond {
+	}
+}
+func (slowMonitor) CheckInactivity(time.Time, *udpclient.Conn) {}
+
+func newEnv(kind string, blockwise bool, queue int, slowNotify ...bool) *env {
 	e := &env{kind: kind}
+	var connOpts []udpclient.Option
+	if len(slowNotify) > 0 && slowNotify[0] {
+		connOpts = append(connOpts, udpclient.WithInactivityMonitor(slowMonitor{}))
+	}
 	e.mid.Store(20000)
 	switch kind {
 	case "udp":
 		s := sim.NewMemSession()
-		cc := sim.NewUDPConn(s, sim.UDPOpts{Blockwise: blockwise, SZX: 6, Handler: func(w *responsewriter.ResponseWriter[*udpclient.Conn], r *pool.Message) {
+		cc := sim.NewUDPConn(s, sim.UDPOpts{Blockwise: blockwise, SZX: 6, ConnOptions: connOpts, Handler: func(w *responsewriter.ResponseWriter[*udpclient.Conn], r *pool.Message) {
 			if r.Code() >= codes.Created && (r.Type() == message.Confirmable || r.Type() == message.NonConfirmable) {
 				e.strayMu.Lock()
 				if len(e.strayL) < 50 {
@@ -114,6 +130,9 @@ type ccase struct {
 	Callers   int    `json:"callers"`
 	Tokens    string `json:"tokens"`
 	Policy    string `json:"peer_policy"`
+	// Hold: callers keep the response for a moment, verify it again and only then release it, while the receive path is
+	// slowed down after the hand-over (udp)
+	Hold bool `json:"callers_hold_and_recheck,omitempty"`
 }
 
 // peer answers requests according to the policy; it keeps the production table.
@@ -273,7 +292,7 @@ func mkToken(rnd *rand.Rand, mode string, i int) []byte {
 }
 
 func runCase(rec *vr.Rec, c ccase, rnd *rand.Rand) {
-	e := newEnv(c.Kind, c.Blockwise, c.Queue)
+	e := newEnv(c.Kind, c.Blockwise, c.Queue, c.Hold)
 	defer e.cc.Close()
 	p := &peer{e: e, rnd: rand.New(rand.NewSource(rnd.Int63())), reqSeen: map[string]int{}, total: c.Callers, crossing: c.Policy == "crossed-acks"}
 	stop := make(chan struct{})
@@ -322,6 +341,16 @@ func runCase(rec *vr.Rec, c ccase, rnd *rand.Rand) {
 				rec.Violation("C03/"+c.Kind+"/foreign-content-delivered", fmt.Sprintf("caller %d token %x: body %x is not what the peer produced for this request", i, tok, b), c)
 			} else {
 				okN.Add(1)
+			}
+			if c.Hold && i%2 == 0 {
+				// the response belongs to this caller until it releases it: it must still be the same response a moment later
+				t0 := time.Now()
+				for time.Since(t0) < time.Duration(40+i%7*30)*time.Microsecond {
+				}
+				b2, _ := resp.ReadBody()
+				if !bytes.Equal(resp.Token(), tok) || !bytes.Equal(b2, produce(tok, pl)) || resp.Code() != codes.Content {
+					rec.Violation("C03/"+c.Kind+"/response-changed-while-held-by-its-caller", fmt.Sprintf("caller %d (token %x): the response it holds now has token %x, code %v, %d body bytes", i, tok, resp.Token(), resp.Code(), len(b2)), c)
+				}
 			}
 			e.cc.ReleaseMessage(resp)
 		}(i)
@@ -639,6 +668,16 @@ func TestRun(t *testing.T) {
 			Callers:   2 + rnd.Intn(maxCallers),
 			Tokens:    []string{"library", "short", "shared-prefix", "zero-prefix"}[rnd.Intn(4)],
 			Policy:    "crossed-acks",
+		})
+	}
+	for i := 0; i < vr.Scale(40, 2000); i++ {
+		cases = append(cases, ccase{
+			Kind:    "udp",
+			Queue:   []int{1, 16}[i%2],
+			Callers: 8 + rnd.Intn(maxCallers),
+			Tokens:  "library",
+			Policy:  fmt.Sprintf("hold-%d", i),
+			Hold:    true,
 		})
 	}
 	var wg sync.WaitGroup
